@@ -50,7 +50,7 @@ def shards(tier, seed):
     return out
 
 
-T.ALPHABETS['c13default'] = {'concepts': [T.ABSENT, 'x'], 'atoms': ['k', '"s"~2'], 'refs': 'all+aligned0',
+T.ALPHABETS['c13default'] = {'concepts': [T.ABSENT, 'x'], 'atoms': ['k', '"s"~2', None], 'refs': 'all+aligned0',
                              'roles': [':ARG0', 'ARG0', ':ARG0-of', ':ARG0-of-of', ':ARG0-of-of-of~e.1', ':consist-of-of', ':', ':foo-of-of-of-of~2', '-of']}
 T.ALPHABETS['c13amr'] = {'concepts': [T.ABSENT, 'x'], 'atoms': ['k', '"s"~2'], 'refs': 'all+aligned0',
                          'roles': [':ARG0-of-of', 'mod-of', ':mod-of-of-of~e.1', ':domain-of~1', ':consist-of', ':consist-of-of-of', ':consist-of-of', ':op1-of-of~2', ':foo-of-of', ':']}
@@ -79,7 +79,7 @@ def cases(shard):
                 extra = [':mod-of', ':domain-of']
             bases = bases + [b for b in extra if b not in bases]
         for b in bases:
-            for k in range(5):
+            for k in range(9):
                 for colon in (True, False):
                     r = b + '-of' * k
                     if not colon:
